@@ -6,6 +6,8 @@
 //!     to every step;
 //!  c. a fixed alphabet of 256 tape-derived strings per decoder with lengths spread over 0..len+64;
 //!  d. every length in {0, 1, 255, 256, 65535, 65536, 65537, 131072} for every length-carrying parameter of every step;
+//!  f. the serde decoders of all 11 types on mutated bincode bytes and mutated JSON text (deletions, duplications,
+//!     replacements, truncations of the text the implementation itself produced);
 //!  e. the key-pair API (PublicKey, PrivateKey, KeyPair, Diffie-Hellman, their serde forms, new_with_key, seeded
 //!     derivation) on all truncations, extensions, bit flips and 256 tape strings of a public and a private key.
 //! Oracle: every call returns Ok or Err (no panic, within the time limit); identities and contexts above 65535 bytes
@@ -289,6 +291,73 @@ fn sweep_lengths(api: &Api, seed: u64, cx: &mut Cx) {
     cx.sample(json!({"suite": api.name(), "sweep": "d", "lengths": lens, "parameters": ["password (4 steps)", "credential identifier (2 steps)", "client identity (3 steps)", "server identity (3 steps)", "context (2 steps)"]}));
 }
 
+/// sweep f: the serde decoders (bincode, JSON) of every message / state type on mutations of the serde form the
+/// implementation itself produced: bincode - truncations, extensions, bit flips; JSON text - every single-character
+/// deletion, duplication and replacement (by a small alphabet), every truncation
+fn sweep_serde(api: &Api, kind: Kind, tier: Tier, seed: u64, cx: &mut Cx) {
+    use crate::adapter::Codec;
+    let f = match honest(api, seed, "c12/f", &setting(1)) {
+        Ok(f) => f,
+        Err(e) => {
+            cx.violate_case("honest-step/error", e, json!({}));
+            return;
+        }
+    };
+    let native = artefacts(&f)[&kind].clone();
+    let (bin, js) = match (api.recode(kind, &Blob::n(&native), Codec::Bincode), api.recode(kind, &Blob::n(&native), Codec::Json)) {
+        (Ok(b), Ok(j)) => (b.bytes, j.bytes),
+        _ => {
+            cx.violate_case("machinery/serde-encode", "cannot produce the serde forms".into(), json!({"kind": kind.name()}));
+            return;
+        }
+    };
+    cx.context_done();
+    let mut feed = |cx: &mut Cx, codec: Codec, m: Vec<u8>, how: serde_json::Value| {
+        if !cx.state(&(kind, codec, &m)) {
+            return;
+        }
+        cx.begin_case(json!({"decoder": kind.name(), "codec": format!("{:?}", codec), "mutation": how}));
+        let r = api.recode(kind, &Blob::new(codec, m), Codec::Native).map(|_| ());
+        judge(cx, r);
+        cx.drain_panics();
+    };
+    for l in 0..bin.len() {
+        feed(cx, Codec::Bincode, bin[..l].to_vec(), json!({"truncate_to": l}));
+    }
+    for extra in 1..=4usize {
+        let mut m = bin.clone();
+        m.extend(std::iter::repeat(0u8).take(extra));
+        feed(cx, Codec::Bincode, m, json!({"extend_by": extra}));
+    }
+    for i in 0..bin.len() {
+        for bit in if tier.thorough() { (0..8).collect::<Vec<u8>>() } else { vec![0, 7] } {
+            let mut m = bin.clone();
+            m[i] ^= 1 << bit;
+            feed(cx, Codec::Bincode, m, json!({"flip_bit": [i, bit]}));
+        }
+    }
+    let repl: &[u8] = if tier.thorough() { b"0f9\",[]{}: -" } else { b"0\",]" };
+    for i in 0..js.len() {
+        let mut m = js.clone();
+        m.remove(i);
+        feed(cx, Codec::Json, m, json!({"delete_char_at": i}));
+        let mut m = js.clone();
+        m.insert(i, js[i]);
+        feed(cx, Codec::Json, m, json!({"duplicate_char_at": i}));
+        for c in repl {
+            if *c != js[i] {
+                let mut m = js.clone();
+                m[i] = *c;
+                feed(cx, Codec::Json, m, json!({"replace_char_at": i, "with": (*c as char).to_string()}));
+            }
+        }
+        if tier.thorough() || i % 4 == 0 {
+            feed(cx, Codec::Json, js[..i].to_vec(), json!({"truncate_to": i}));
+        }
+    }
+    cx.sample(json!({"suite": api.name(), "sweep": "f", "decoder": kind.name(), "bincode_len": bin.len(), "json_len": js.len()}));
+}
+
 /// sweep e: the key-pair API (PublicKey / PrivateKey / KeyPair / Diffie-Hellman) on mutated and arbitrary byte strings
 fn sweep_keys(api: &Api, tier: Tier, seed: u64, cx: &mut Cx) {
     use crate::adapter::Codec;
@@ -371,6 +440,13 @@ pub fn run(tier: Tier, seed: u64) -> i32 {
     tot.merge(fw::run_items("C12", &apis, |a| a.name().to_string(), |api, cx| sweep_foreign(api, seed, cx)));
     tot.merge(fw::run_items("C12", &apis, |a| a.name().to_string(), |api, cx| sweep_lengths(api, seed, cx)));
     tot.merge(fw::run_items("C12", &apis, |a| a.name().to_string(), |api, cx| sweep_keys(api, tier, seed, cx)));
+    let mut sitems = vec![];
+    for api in all_apis() {
+        for k in ALL_KINDS {
+            sitems.push((api, k));
+        }
+    }
+    tot.merge(fw::run_items("C12", &sitems, |(a, _)| a.name().to_string(), |(api, k), cx| sweep_serde(api, *k, tier, seed, cx)));
     if tot.slow_calls > 0 {
         tot.machinery_errors.push(format!("{} call(s) exceeded the {} ms limit (max {} ms): re-run to confirm; a reproducible hang is a C12 violation", tot.slow_calls, crate::api::SLOW_MS, tot.max_call_ms));
     }
